@@ -150,11 +150,12 @@ class FortranExpressionMapper(_PowerPrintingMixin, StringifyMapper):
         # "!" starts a comment in free-form Fortran.
         operator = {"!=": "/="}.get(expr.operator, expr.operator)
 
+        # An operand that is itself a comparison keeps its parentheses.
         return self.parenthesize_if_needed(
                 self.format("%s %s %s",
-                    self.rec(expr.left, PREC_COMPARISON),
+                    self.rec(expr.left, PREC_COMPARISON + 1),
                     operator,
-                    self.rec(expr.right, PREC_COMPARISON)),
+                    self.rec(expr.right, PREC_COMPARISON + 1)),
                 enclosing_prec, PREC_COMPARISON)
 
     def map_logical_not(self, expr, enclosing_prec):
@@ -232,6 +233,18 @@ class PythonExpressionMapper(_PowerPrintingMixin, StringifyMapper):
         if expr.name.startswith("<func>"):
             return self._name_manager.name_function(expr.name)
         return self._name_manager[expr.name]
+
+    def map_comparison(self, expr, enclosing_prec, *args, **kwargs):
+        # As in the superclass, but an operand that is itself a comparison
+        # keeps its parentheses: Python reads "a < b == c" as a chain,
+        # "a < b and b == c".
+        from pymbolic.mapper.stringifier import PREC_COMPARISON
+        return self.parenthesize_if_needed(
+                self.format("%s %s %s",
+                    self.rec(expr.left, PREC_COMPARISON + 1, *args, **kwargs),
+                    expr.operator,
+                    self.rec(expr.right, PREC_COMPARISON + 1, *args, **kwargs)),
+                enclosing_prec, PREC_COMPARISON)
 
     def map_product(self, expr, enclosing_prec, *args, **kwargs):
         # As in the superclass, but a nested product keeps its parentheses:
